@@ -11,6 +11,7 @@ import (
 	"fmt"
 	"os"
 	"reflect"
+	"strings"
 	"sync"
 )
 
@@ -172,8 +173,8 @@ func vObserveBytes(label string, b []byte) {
 	vObs = append(vObs, fmt.Sprintf("%s=%x", label, b))
 	vMu.Unlock()
 }
-func vLog(msg string)               {}
-func vRecord(name string, val int)  {}
+func vLog(msg string)              {}
+func vRecord(name string, val int) {}
 
 // vRecorded returns the i-th value recorded under name by the engine on the
 // counterexample path (-1 if there is none).
@@ -184,30 +185,31 @@ func vRecorded(name string, i int) int {
 	}
 	return -1
 }
-func vAnd(a, b bool) bool           { return a && b }
-func vOr(a, b bool) bool            { return a || b }
-func vNot(a bool) bool              { return !a }
-func vImplies(a, b bool) bool       { return !a || b }
+func vAnd(a, b bool) bool     { return a && b }
+func vOr(a, b bool) bool      { return a || b }
+func vNot(a bool) bool        { return !a }
+func vImplies(a, b bool) bool { return !a || b }
 func vIteU64(c bool, a, b uint64) uint64 {
 	if c {
 		return a
 	}
 	return b
 }
-func vEqBytes(a, b []byte) bool     { return bytes.Equal(a, b) }
-func vIsNil(b []byte) bool          { return b == nil }
-func vCase() int                    { return vVec.Case }
-func vSymbolic() bool               { return false }
-func vFlag(name string, val int)    {}
-func vCounter(name string) int64    { return 0 }
+func vEqBytes(a, b []byte) bool      { return bytes.Equal(a, b) }
+func vIsNil(b []byte) bool           { return b == nil }
+func vCase() int                     { return vVec.Case }
+func vSymbolic() bool                { return false }
+func vFlag(name string, val int)     {}
+func vCounter(name string) int64     { return 0 }
 func vCounterAdd(name string, d int) {}
-func vKill()                        { panic(vAssumeFailed{}) }
-func vTag(b []byte, tag string)     {}
-func vTagOf(b []byte) string        { return "" }
+func vKill()                         { panic(vAssumeFailed{}) }
+func vTag(b []byte, tag string)      {}
+func vTagOf(b []byte) string         { return "" }
 func vSameObject(a, b []byte) bool {
 	return cap(a) > 0 && cap(b) > 0 && &a[:cap(a)][cap(a)-1] == &b[:cap(b)][cap(b)-1]
 }
 func vReachable(root interface{}, b []byte) bool { return false }
+
 // ---- native deterministic scheduler (replay of engine schedules) ----
 // Threads are goroutines that run one at a time; control changes hands only at
 // vYield (and at thread start/exit), in the order recorded by the engine.
@@ -219,10 +221,11 @@ type vThread struct {
 }
 
 var (
-	vThreads  []*vThread
-	vCur      *vThread
-	vSchedIdx int
-	vYieldCh  = make(chan struct{})
+	vThreads     []*vThread
+	vCur         *vThread
+	vSchedIdx    int
+	vYieldCh     = make(chan struct{})
+	vCrashRaised interface{}
 )
 
 func vGo(f func()) {
@@ -232,9 +235,14 @@ func vGo(f func()) {
 		<-t.wake
 		defer func() {
 			if r := recover(); r != nil {
-				vMu.Lock()
-				vFailures = append(vFailures, fmt.Sprintf("panic in thread %d: %v", t.id, r))
-				vMu.Unlock()
+				if strings.HasSuffix(fmt.Sprintf("%T", r), "vCrashSignal") {
+					// process death raised inside a thread: all threads stop, vJoin re-raises it
+					vCrashRaised = r
+				} else {
+					vMu.Lock()
+					vFailures = append(vFailures, fmt.Sprintf("panic in thread %d: %v", t.id, r))
+					vMu.Unlock()
+				}
 			}
 			t.done = true
 			vYieldCh <- struct{}{}
@@ -276,14 +284,22 @@ func vJoin() {
 		vCur = pick
 		pick.wake <- struct{}{}
 		<-vYieldCh
+		if vCrashRaised != nil {
+			// the other threads stay parked for ever (the process is dead)
+			r := vCrashRaised
+			vCrashRaised = nil
+			vCur = nil
+			vThreads = nil
+			panic(r)
+		}
 	}
 	vCur = nil
 	vThreads = nil
 }
 
 func vLiveThreads() int { return 1 }
-func vThreadID() int  { return 0 }
-func vHeldLocks() int { return 0 }
+func vThreadID() int    { return 0 }
+func vHeldLocks() int   { return 0 }
 
 // ---- native realisation of the solver's hash assignment ----
 // The engine treats hash.Sum32WithSeed as an uninterpreted function. A replay
